@@ -104,6 +104,26 @@ def cases(ctx: Ctx):
     return out
 
 
+RICH_CAPS = bytes([0xB5, 8, 0x16, 0x02, 1, 3, 0x1F, 0x02, 1, 2, 0x09, 0x00, 1, 1, 0x0A, 0x00, 1, 1, 0x39, 0x00, 1, 1, 0x48, 0x00, 1, 1, 0xE3, 0x00, 1, 1, 0x42, 0x00, 1, 1])
+GOOD_ENERGY = bytes([0xC1, 0x21, 0x01, 0x44, 0, 0, 0x12, 0x34, 0, 0, 0, 0, 0, 0, 0, 0x56, 0, 7, 0x89, 0])
+GOOD_HUMID = bytes([0xC1, 0x21, 0x01, 0x45, 47, 0, 0, 0])
+GOOD_PROPS = bytes([0xB1, 2, 0x09, 0, 0, 1, 25, 0x0A, 0, 0, 1, 50])
+
+
+def expose(d):
+    """Everything the object exposes: to_dict() without the two liveness flags, plus every supports_* / supported_* / min / max attribute."""
+    out = {a: b for a, b in d.to_dict().items() if a not in ("online", "supported")}
+    for n in sorted(dir(type(d))):
+        if n.startswith(("supports_", "supported_", "min_target", "max_target")) or n == "enable_energy_usage_requests":
+            try:
+                v = getattr(d, n)
+            except Exception as e:  # noqa: BLE001
+                v = "raised " + type(e).__name__
+            if not callable(v):
+                out["attr:" + n] = str(sorted(str(x) for x in v)) if isinstance(v, (list, set, tuple, frozenset)) else str(v)
+    return out
+
+
 def collect(ctx: Ctx, cs):
     from msmart.device import AirConditioner as AC
     vloop.install_clock()
@@ -120,25 +140,35 @@ def collect(ctx: Ctx, cs):
         for k, (kind, style, f, pos, sub, fix) in enumerate(cs):
             d = AC(ip="10.0.0.1", port=6444, device_id=k)
             hist = k % 3 != 0
+            rich = k % 7 in (5, 6)
+            if rich:
+                # the object has learned from a valid capabilities response that the appliance has energy / humidity polling and property settings,
+                # and has refreshed them once (four exchanges)
+                ac.script = [[acdev.resp_frame(3, RICH_CAPS, "crc")]]
+                await d.get_capabilities()
+                ac.script = [[good_state], [acdev.resp_frame(3, GOOD_ENERGY, "crc")], [acdev.resp_frame(3, GOOD_HUMID, "crc")], [acdev.resp_frame(3, GOOD_PROPS, "crc")]]
+                await d.refresh()
+                ac.script = []
             if k % 3 == 2:                 # history: the ORIGINAL of the corrupted frame was accepted earlier by this very device object ...
                 ac.replies = [f]
                 await d.refresh()
             if hist:                       # ... and a different valid exchange after it (so state/online/supported are non-default)
                 ac.replies = [good_state]
                 await d.refresh()
-            before = d.to_dict()
+            before = expose(d)
             g = corrupt(f, pos, sub, fix)
             ac.replies = [g]
             raised = "none"
             try:
+                if rich and k % 7 == 6:
+                    await d.get_capabilities()          # a capability re-query whose only reply is the corrupted frame, then the refresh
                 await d.refresh()
             except Exception as e:  # noqa: BLE001
                 raised = type(e).__name__
-            after = d.to_dict()
-            drop = lambda x: {a: b for a, b in x.items() if a not in ("online", "supported")}
+            after = expose(d)
             vectors.append({"kind": kind, "style": style, "orig": B(f), "frame": B(g), "pos": pos, "sub": sub, "fix": fix,
-                            "same": drop(before) == drop(after), "online": bool(d.online), "supported": bool(d.supported),
-                            "raised": raised, "history": hist})
+                            "same": before == after, "online": bool(d.online), "supported": bool(d.supported),
+                            "raised": raised, "history": hist, "learned_capabilities": rich, "requery": bool(rich and k % 7 == 6)})
             if d._lan._protocol:
                 d._lan._disconnect()
 
@@ -185,7 +215,9 @@ def run(ctx: Ctx) -> int:
         rule="valid responses of the five kinds x 2 check styles; every byte position after the start byte x substitutes "
              "(quick: 17 boundary/random values per position, thorough: all 255) without fix-up, every body position with fix-up "
              "(plus every substitute the dual-check rule lets through); each fed as the only reply to refresh() on a fresh device "
-             "and on a device with history; distinct = (kind, style, position, substitute, fixup)",
+             "and on a device with history (a valid exchange before; the original accepted before; capabilities with energy / humidity / property "
+             "polling learned and refreshed before, with and without a capability re-query answered by the corrupted frame); exposed state = to_dict() + "
+             "every supports_* / supported_* / min / max attribute; distinct = (kind, style, position, substitute, fixup)",
         assumptions=["property responses with fix-up are exempt from the body check by design and are not enumerated",
                      "known finding D6: accepted corruptions of class dual-check-collision / becomes-property-id (see known_findings.json)"])
 
